@@ -74,6 +74,18 @@ func effectsGrammar(full bool) *gen.Grammar {
 	g.Prod("obj-mem", N, []*gen.Ty{N, B}, func(x []*gen.Term) *gen.Term {
 		return gen.MemT(gen.ObjT([]string{"p", "q"}, x[0], x[1]), "p")
 	})
+	// map literals: every key and value runs once, in written order, also when a key repeats;
+	// a map subscript runs the map, then the key, once each
+	g.Prod("map-sub", N, []*gen.Ty{N, N, N}, func(x []*gen.Term) *gen.Term { return gen.SubT(gen.MapT(x[0], x[1]), x[2]) })
+	g.Prod("map-dup-num", N, []*gen.Ty{N, N, N}, func(x []*gen.Term) *gen.Term {
+		return gen.CallT("len", gen.MapT(gen.NumT(1), x[0], gen.NumT(2), x[1], gen.NumT(1), x[2]))
+	})
+	g.Prod("map-dup-str", N, []*gen.Ty{N, N}, func(x []*gen.Term) *gen.Term {
+		return gen.SubT(gen.MapT(gen.StrT("a"), x[0], gen.StrT("a"), x[1]), gen.StrT("a"))
+	})
+	g.Prod("map-var-sub", N, []*gen.Ty{N}, func(x []*gen.Term) *gen.Term {
+		return gen.Infix("+", gen.SubT(gen.VarT("m"), gen.CallT("tr", gen.NumT(0), gen.StrT("a"))), x[0])
+	})
 	g.Prod("get-list", N, []*gen.Ty{N, N, N}, func(x []*gen.Term) *gen.Term { return gen.CallT("get", gen.ListT(x[0]), x[1], x[2]) })
 	// the guarded idiom
 	g.Prod("guard", N, []*gen.Ty{N}, func(x []*gen.Term) *gen.Term {
